@@ -246,14 +246,11 @@ def run_single(case, table, seed, ops):
 DRAWS = ("f", "i", "b")
 
 
-def oracle(case, outs):
-    """Evaluate the clauses of C12 on the implementation's outputs.
-    Returns (signature, description) of the first violated clause or None."""
-    table = case_table(case)
+def tracked(case, outs, table, positions: bool):
+    """(d) ranges and result types; with positions=True also (e): the n-th draw
+    after (re)seeding with s returns the n-th output of the generator seeded
+    with s, whatever kinds of draws came before."""
     seeds, ops = case["seeds"], case["ops"]
-    ns = len(seeds)
-    proj = [[(t, op[1:]) for t, op in enumerate(ops) if op[0] == i] for i in range(ns)]
-    # (d) ranges and result types, (e) one generator output per call
     state = [{"seed": s, "pos": 0, "cur": s, "orig": s, "saved": {}} for s in seeds]
     for t, op in enumerate(ops):
         i, kind = op[0], op[1]
@@ -268,12 +265,14 @@ def oracle(case, outs):
                     return ("next-float-raises", f"op #{t} {op}: {o}")
                 if not (0 <= o[1] < TWO53):
                     return ("float-outside-unit-interval", f"op #{t}: next_float returned {o[1]}/2^53")
-                if o[1] != k:
+                if positions and o[1] != k:
                     return ("not-one-generator-output-per-call",
                             f"op #{t} {op} on stream {i}: next_float returned {o[1]}/2^53 but output #{st['pos'] - 1} "
                             f"of the generator seeded with {st['seed']} is {k}/2^53")
             elif kind == "b":
-                if o != ["bool", k < TWO52]:
+                if o[0] != "bool":
+                    return ("next-bool-raises", f"op #{t} {op}: {o}")
+                if positions and o != ["bool", k < TWO52]:
                     return ("not-one-generator-output-per-call",
                             f"op #{t} {op} on stream {i}: next_bool returned {o}, generator output #{st['pos'] - 1} "
                             f"after seed {st['seed']} is {k}/2^53")
@@ -287,9 +286,9 @@ def oracle(case, outs):
                     if not (lo <= o[1] <= hi):
                         return ("next-int-out-of-range", f"op #{t}: next_int({lo}, {hi}) returned {o[1]} (u = {k}/2^53)")
                     w = hi - lo + 1
-                    if k == 0 and o[1] != lo:
+                    if positions and k == 0 and o[1] != lo:
                         return ("next-int-endpoint-unreachable", f"op #{t}: next_int({lo}, {hi}) with u = 0 returned {o[1]}, not lo")
-                    if k == TWO53 - 1 and w <= TWO53 and o[1] != hi:
+                    if positions and k == TWO53 - 1 and w <= TWO53 and o[1] != hi:
                         return ("next-int-endpoint-unreachable",
                                 f"op #{t}: next_int({lo}, {hi}) with u = 1-2^-53 returned {o[1]}, not hi")
         elif kind == "seed":
@@ -303,10 +302,10 @@ def oracle(case, outs):
                 return ("restore-of-saved-state-refused", f"op #{t} {op}: {o}")
             st["seed"], st["pos"] = st["saved"][op[2]]
         elif kind == "qseed":
-            if o != ["seed", st["cur"]]:
+            if positions and o != ["seed", st["cur"]]:
                 return ("seed-query-wrong", f"op #{t}: seed() returned {o}, current seed is {st['cur']}")
         elif kind == "qorig":
-            if o != ["seed", st["orig"]]:
+            if positions and o != ["seed", st["orig"]]:
                 return ("seed-query-wrong", f"op #{t}: original_seed() returned {o}, original seed is {st['orig']}")
         elif kind == "ibad":
             if o != ["raise", "TypeError"]:
@@ -314,6 +313,19 @@ def oracle(case, outs):
         elif kind == "rbad":
             if o[0] != "raise":
                 return ("garbage-state-accepted", f"op #{t}: restore_state({BAD_STATES[op[2]]!r}) gave {o}")
+    return None
+
+
+def oracle(case, outs):
+    """Evaluate the clauses of C12 on the implementation's outputs.
+    Returns (signature, description) of the first violated clause or None."""
+    table = case_table(case)
+    seeds, ops = case["seeds"], case["ops"]
+    ns = len(seeds)
+    proj = [[(t, op[1:]) for t, op in enumerate(ops) if op[0] == i] for i in range(ns)]
+    bad = tracked(case, outs, table, positions=False)
+    if bad:
+        return bad
     # (a) twins / independence: every stream alone, fresh object, same requests
     for i in range(ns):
         alone = run_single(case, table, seeds[i], [op for _, op in proj[i]])
@@ -340,7 +352,7 @@ def oracle(case, outs):
             if op[0] in ("reset", "seed"):
                 tail, labs = [], set()
                 for q in reqs[n + 1:]:
-                    if q[0] == "qorig" or (q[0] == "restore" and q[1] not in labs):
+                    if q[0] == "qorig" or (q[0] == "restore" and q[1] not in labs) or (op[0] == "seed" and q[0] == "reset"):
                         break
                     if q[0] == "save":
                         labs.add(q[1])
@@ -366,7 +378,7 @@ def oracle(case, outs):
                         return ("restore-does-not-continue-as-after-save",
                                 f"stream {i}: state saved at request #{m}, restored at #{n}; the draws {tail} then gave {got}, "
                                 f"directly after the save they give {ref}")
-    return None
+    return tracked(case, outs, table, positions=True)
 
 
 def nontrivial(case) -> bool:
